@@ -15,6 +15,8 @@ import DoltVerif.Lemmas.MutContent
 import DoltVerif.Lemmas.OrdinalPath
 import DoltVerif.Lemmas.CursorOrder
 import DoltVerif.Lemmas.IterEnds
+import DoltVerif.Lemmas.Overlay
+import DoltVerif.Lemmas.MergeIter
 namespace DoltVerif.C11
 open DoltVerif.Prolly DoltVerif.SortedDict
 
@@ -755,6 +757,164 @@ theorem mutable_refines_safe {σ : Type} [Inhabited κ] [BEq κ] [BEq ν] [Lawfu
     (hrun : MutMap.run C cmp { tree := t, maxPending := maxPending } ops = .ok m') :
     m'.content cmp = SortedDict.run cmp t.flatten ops :=
   mutable_refines_partial hc (flushRefines_wf C hc) t.flatten hgood.1.sorted t hgood rfl maxPending ops m' hsafe hrun
+
+/-! ### reads of a mutable map: pending edits overlay the tree -/
+
+/-- **`MutableMap.Get`/`Has` refine the dictionary lookup on the presented content**: the pending
+edit for the key, if any, decides (a pending delete hides the tree's entry, a pending put replaces
+it); otherwise the tree's entry — for every well-formed static tree and every pending list. -/
+theorem mget_refines [Inhabited κ] {cmp : κ → κ → Ordering} (hc : TotalPreorder cmp) (m : MutMap κ ν)
+    (hgood : GoodTree cmp m.tree) (k : κ) :
+    m.get cmp k = SortedDict.lookup cmp (m.content cmp) k := by
+  have hview := viewL_sorted (ν := ν) hc m.edits.log
+  have hl := lookup_applyEdits hc k (viewL cmp m.edits.log) m.tree.flatten hgood.1.sorted hview
+  have hcontent : m.content cmp = applyEdits cmp m.tree.flatten (viewL cmp m.edits.log) := rfl
+  have hget : m.edits.get cmp k = editFor cmp (viewL cmp m.edits.log) k := rfl
+  unfold MutMap.get
+  rw [hcontent, hl, hget, get_refines hc m.tree hgood.1 k]
+  cases editFor cmp (viewL cmp m.edits.log) k with
+  | none => rfl
+  | some e =>
+    obtain ⟨k', ov⟩ := e
+    cases ov <;> rfl
+
+/-- the tree part of a range iterator: the window between the two cursor ordinals -/
+theorem range_iterPaths [Inhabited κ] {cmp : κ → κ → Ordering} (hc : TotalPreorder cmp) (t : Tree κ ν)
+    (h : WF cmp t) (hne : t.height = 0 ∨ t.root ≠ []) {pLo pHi : κ → Bool} (hLo : Mono cmp pLo) (hHi : Mono cmp pHi) :
+    ∃ lo hi, seekPath (psearch pLo) t.height t.root = some lo ∧ seekPath (psearch pHi) t.height t.root = some hi ∧
+      t.iterPaths lo hi = some (t.slice (rankP pLo t.flatten) (rankP pHi t.flatten)) := by
+  have ha := seek_ordinal_refines hc t h hne _ hLo
+  have hb := seek_ordinal_refines hc t h hne _ hHi
+  unfold Tree.seekOrdinal at ha hb
+  cases hlo : seekPath (psearch pLo) t.height t.root with
+  | none => rw [hlo] at ha; cases ha
+  | some lo =>
+    cases hhi : seekPath (psearch pHi) t.height t.root with
+    | none => rw [hhi] at hb; cases hb
+    | some hi =>
+      rw [hlo] at ha; rw [hhi] at hb
+      simp only at ha hb
+      refine ⟨lo, hi, rfl, rfl, ?_⟩
+      have hcur := search_cursors_consistent hc t h hne hLo hHi lo hi hlo hhi
+      unfold Tree.iterPaths
+      by_cases hcmp : cmpPath lo hi = .lt
+      · obtain ⟨kv, hkv⟩ := Option.isSome_iff_exists.mp (hcur.2 hcmp)
+        simp only [hcmp, bne_self_eq_false, Bool.false_eq_true, if_false, hkv, ha, hb]
+      · have hle := hcur.1 hcmp _ _ ha hb
+        have hne' : (cmpPath lo hi != .lt) = true := by simpa using hcmp
+        simp only [hne', if_true, Option.some.injEq]
+        unfold Tree.slice
+        have : ¬ (rankP pLo t.flatten < rankP pHi t.flatten) := by omega
+        simp [this]
+
+/-- **`MutableMap.IterRange` refines the range query on the presented content**: the tree's range
+iterator merged with the pending edits' range iterator (`mutableMapIter`: the pending edit wins on
+equal keys, pending deletes drop the entry) and filtered by `Matches` yields exactly the entries of
+`applyEdits tree-content pending-edits` that match — every bound kind, empty and inverted ranges
+included.  Hypotheses as for `iterRange_refines`, plus `Matches` not separating keys that compare
+equal. -/
+theorem mrange_refines [Inhabited κ] {cmp : κ → κ → Ordering} (hc : TotalPreorder cmp) (m : MutMap κ ν)
+    (hgood : GoodTree cmp m.tree) (fcmp : FieldCmp κ β) (r : List (RangeField β))
+    (hok : ∀ f ∈ r, FieldOk fcmp f)
+    (hLo : Mono cmp (fun k => aboveStart fcmp k 0 r)) (hHi : Mono cmp (fun k => !belowStop fcmp k 0 r))
+    (hcongr : ∀ a b, cmp a b = .eq → rangeMatches fcmp a 0 r = rangeMatches fcmp b 0 r) :
+    m.iterRange cmp fcmp r = some ((m.content cmp).filter (fun kv => rangeMatches fcmp kv.1 0 r)) := by
+  obtain ⟨lo, hi, hlo, hhi, hit⟩ := range_iterPaths hc m.tree hgood.1 hgood.2 hLo hHi
+  have hstart : rangeStartSearch fcmp r = psearch (fun k => aboveStart fcmp k 0 r) := rfl
+  have hstop : rangeStopSearch fcmp r = psearch (fun k => !belowStop fcmp k 0 r) := rfl
+  have hview := viewL_sorted (ν := ν) hc m.edits.log
+  have hmk : ∀ x, rangeMatches fcmp x 0 r = true →
+      aboveStart fcmp x 0 r = true ∧ (!belowStop fcmp x 0 r) = false := by
+    intro x hx
+    obtain ⟨h1, h2⟩ := range_predicates_consistent fcmp x r 0 hok hx
+    exact ⟨h1, by simp [h2]⟩
+  -- the two windows
+  have hW := window_filter (pLo := fun k => aboveStart fcmp k 0 r) hHi m.tree.flatten hgood.1.sorted
+    (fun kv => rangeMatches fcmp kv.1 0 r) (fun x hx => hmk x.1 hx)
+  have hM := mem_window_filter (pLo := fun k => aboveStart fcmp k 0 r) hHi (viewL cmp m.edits.log) hview
+    (fun k => rangeMatches fcmp k 0 r) hmk
+  have hbelow : (fun e : κ × Option ν => !(!belowStop fcmp e.1 0 r)) = (fun e => belowStop fcmp e.1 0 r) := by
+    funext e; simp
+  rw [hbelow] at hM
+  -- sortedness of the windows
+  have hWs : Sorted cmp (m.tree.slice (rankP (fun k => aboveStart fcmp k 0 r) m.tree.flatten)
+      (rankP (fun k => !belowStop fcmp k 0 r) m.tree.flatten)) := by
+    unfold Tree.slice
+    split
+    · exact List.Pairwise.sublist ((List.take_sublist _ _).trans (List.drop_sublist _ _)) hgood.1.sorted
+    · exact List.Pairwise.nil
+  have hMs : (((viewL cmp m.edits.log).dropWhile (fun e => !aboveStart fcmp e.1 0 r)).takeWhile
+      (fun e => belowStop fcmp e.1 0 r)).Pairwise (fun a b => cmp a.1 b.1 = .lt) :=
+    List.Pairwise.sublist ((List.takeWhile_sublist _).trans (List.dropWhile_sublist _)) hview
+  unfold MutMap.iterRange
+  rw [hstart, hstop, hlo, hhi]
+  simp only [hit]
+  congr 1
+  have hview' : m.edits.view cmp = viewL cmp m.edits.log := rfl
+  rw [hview', mergeIter_eq_applyEdits hc _ _ _ (Nat.le_refl _)]
+  rw [filter_applyEdits hc (fun k => rangeMatches fcmp k 0 r) hcongr _ _ hWs hMs]
+  have hW' : (m.tree.slice (rankP (fun k => aboveStart fcmp k 0 r) m.tree.flatten)
+      (rankP (fun k => !belowStop fcmp k 0 r) m.tree.flatten)).filter (fun kv => rangeMatches fcmp kv.1 0 r)
+      = m.tree.flatten.filter (fun kv => rangeMatches fcmp kv.1 0 r) := hW
+  rw [hW', hM]
+  have hcontent : m.content cmp = applyEdits cmp m.tree.flatten (viewL cmp m.edits.log) := rfl
+  rw [hcontent, filter_applyEdits hc (fun k => rangeMatches fcmp k 0 r) hcongr _ _ hgood.1.sorted hview]
+
+/-- **`MutableMap.IterAll`** (= `IterRange` of the empty range) yields the presented content -/
+theorem mall_refines [Inhabited κ] {cmp : κ → κ → Ordering} (hc : TotalPreorder cmp) (m : MutMap κ ν)
+    (hgood : GoodTree cmp m.tree) (fcmp : FieldCmp κ β) :
+    m.iterRange cmp fcmp ([] : List (RangeField β)) = some (m.content cmp) := by
+  have h := mrange_refines hc m hgood fcmp ([] : List (RangeField β)) (by intro f hf; cases hf)
+    (fun _ _ _ _ => rfl) (fun _ _ _ h => by simp [belowStop] at h) (fun _ _ _ => rfl)
+  rw [h]
+  simp [rangeMatches]
+
+/-- **reads after any safe history**: after every operation sequence satisfying `SafeRun`, for
+every flush threshold, `MutableMap.Get` answers what the sorted dictionary answers. -/
+theorem mget_after_run {σ : Type} [Inhabited κ] [BEq κ] [BEq ν] [LawfulBEq κ] [LawfulBEq ν]
+    {C : Cfg σ κ ν} {cmp : κ → κ → Ordering} (hc : TotalPreorder cmp) (t : Tree κ ν) (hgood : GoodTree cmp t)
+    (maxPending : Nat) (ops : List (MOp κ ν)) (m' : MutMap κ ν)
+    (hsafe : SafeRun C cmp { tree := t, maxPending := maxPending } false ops)
+    (hrun : MutMap.run C cmp { tree := t, maxPending := maxPending } ops = .ok m') (k : κ) :
+    m'.get cmp k = SortedDict.lookup cmp (SortedDict.run cmp t.flatten ops) k := by
+  have hinit : MInv cmp (GoodTree cmp) ({ tree := t, maxPending := maxPending } : MutMap κ ν) ⟨t.flatten, t.flatten⟩ false := {
+    goodTree := hgood
+    sortedTree := hgood.1.sorted
+    cur := rfl
+    cpLe := Nat.le_refl _
+    aliasCp := fun ha => by cases ha
+    unseen := fun _ => ⟨rfl, rfl, rfl⟩
+    stashOk := fun s hs' _ => by cases hs'
+    liveOk := fun hseen _ => by cases hseen }
+  obtain ⟨seen', hinv⟩ := mutable_run_inv hc (flushRefines_wf C hc) ops _ m' _ false hinit hsafe hrun
+  rw [mget_refines hc m' hinv.goodTree k]
+  have : m'.content cmp = SortedDict.run cmp t.flatten ops := hinv.cur
+  rw [this]
+
+/-- the same for `MutableMap.IterRange` -/
+theorem mrange_after_run {σ : Type} [Inhabited κ] [BEq κ] [BEq ν] [LawfulBEq κ] [LawfulBEq ν]
+    {C : Cfg σ κ ν} {cmp : κ → κ → Ordering} (hc : TotalPreorder cmp) (t : Tree κ ν) (hgood : GoodTree cmp t)
+    (maxPending : Nat) (ops : List (MOp κ ν)) (m' : MutMap κ ν)
+    (hsafe : SafeRun C cmp { tree := t, maxPending := maxPending } false ops)
+    (hrun : MutMap.run C cmp { tree := t, maxPending := maxPending } ops = .ok m')
+    (fcmp : FieldCmp κ β) (r : List (RangeField β)) (hok : ∀ f ∈ r, FieldOk fcmp f)
+    (hLo : Mono cmp (fun k => aboveStart fcmp k 0 r)) (hHi : Mono cmp (fun k => !belowStop fcmp k 0 r))
+    (hcongr : ∀ a b, cmp a b = .eq → rangeMatches fcmp a 0 r = rangeMatches fcmp b 0 r) :
+    m'.iterRange cmp fcmp r
+      = some ((SortedDict.run cmp t.flatten ops).filter (fun kv => rangeMatches fcmp kv.1 0 r)) := by
+  have hinit : MInv cmp (GoodTree cmp) ({ tree := t, maxPending := maxPending } : MutMap κ ν) ⟨t.flatten, t.flatten⟩ false := {
+    goodTree := hgood
+    sortedTree := hgood.1.sorted
+    cur := rfl
+    cpLe := Nat.le_refl _
+    aliasCp := fun ha => by cases ha
+    unseen := fun _ => ⟨rfl, rfl, rfl⟩
+    stashOk := fun s hs' _ => by cases hs'
+    liveOk := fun hseen _ => by cases hseen }
+  obtain ⟨seen', hinv⟩ := mutable_run_inv hc (flushRefines_wf C hc) ops _ m' _ false hinit hsafe hrun
+  rw [mrange_refines hc m' hinv.goodTree fcmp r hok hLo hHi hcongr]
+  have : m'.content cmp = SortedDict.run cmp t.flatten ops := hinv.cur
+  rw [this]
 
 /-- **`checkpoint_revert`** (corollary): under the same hypotheses, whatever happens between a
 checkpoint and the revert — including flushes — the map is back at the checkpointed content. -/
